@@ -54,6 +54,9 @@ type scenario struct {
 	Sources int     `json:"sources"`
 	Probes  []probe `json:"probes"`
 	Kind    string  `json:"kind"`
+	// Again: a second burst by the same sources, sent after the first one has been reported (the detector has
+	// removed its group): it must be reported on its own, listing exactly its ports
+	Again []probe `json:"again,omitempty"`
 }
 
 // perms of interleaving: sequences of source indices with given counts.
@@ -138,6 +141,42 @@ func scenarios(tier string, seed int64) []scenario {
 		}
 		out = append(out, sc)
 	}
+	// a source that comes back after it has been reported
+	nr := 24
+	if tier == "thorough" {
+		nr = 300
+	}
+	for i := 0; i < nr; i++ {
+		r := core.NewRng(seed, "C20/repeat", i)
+		sc := scenario{Sources: r.Range(1, 2), Kind: "repeat-scan"}
+		proto := r.PickS([]string{"tcp", "udp", "udp"})
+		ports := tcpPorts
+		if proto == "udp" {
+			ports = udpPorts
+		}
+		for s := 0; s < sc.Sources; s++ {
+			for j := r.Range(1, 4); j > 0; j-- {
+				sc.Probes = append(sc.Probes, probe{Src: s, Proto: proto, Port: ports[r.Intn(len(ports))]})
+			}
+		}
+		// the returning source is the last one that knocked in some scenarios and not in others
+		back := r.Intn(sc.Sources)
+		if r.Bool() {
+			sc.Probes = append(sc.Probes, probe{Src: back, Proto: proto, Port: ports[r.Intn(len(ports))]})
+		}
+		for j := r.Range(1, 4); j > 0; j-- {
+			pt := ports[r.Intn(len(ports))]
+			if r.Bool() { // a port it had probed before
+				for _, q := range sc.Probes {
+					if q.Src == back {
+						pt = q.Port
+					}
+				}
+			}
+			sc.Again = append(sc.Again, probe{Src: back, Proto: proto, Port: pt})
+		}
+		out = append(out, sc)
+	}
 	return out
 }
 
@@ -169,8 +208,9 @@ type evObs struct {
 }
 
 type scnObs struct {
-	Events []evObs `json:"events"`
-	WaitMs int64   `json:"wait_ms"`
+	Events  []evObs `json:"events"`
+	Events2 []evObs `json:"events_after_second_burst,omitempty"`
+	WaitMs  int64   `json:"wait_ms"`
 }
 
 type params struct {
@@ -208,13 +248,6 @@ func runScan(k int, sc scenario) scnObs {
 	if err != nil {
 		return scnObs{}
 	}
-	for i, p := range sc.Probes {
-		h.Write(frame(k, p, i))
-	}
-	want := map[string]bool{}
-	for _, p := range sc.Probes {
-		want[srcIP(k, p.Src).String()+"|"+p.pair()] = true
-	}
 	t0 := time.Now()
 	collect := func() []evObs {
 		var out []evObs
@@ -236,26 +269,51 @@ func runScan(k int, sc scenario) scnObs {
 		}
 		return out
 	}
-	for {
-		got := map[string]bool{}
-		for _, e := range collect() {
-			for _, p := range e.Ports {
-				got[e.Src+"|"+p] = true
+	// burst sends the probes and waits until every pair shows up in events after the first skip ones and the
+	// detector's quiet period has passed (or 16 s)
+	burst := func(probes []probe, seq0, skip int) {
+		for i, p := range probes {
+			h.Write(frame(k, p, seq0+i))
+		}
+		want := map[string]bool{}
+		for _, p := range probes {
+			want[srcIP(k, p.Src).String()+"|"+p.pair()] = true
+		}
+		t1 := time.Now()
+		for {
+			got := map[string]bool{}
+			evs := collect()
+			if skip < len(evs) {
+				for _, e := range evs[skip:] {
+					for _, p := range e.Ports {
+						got[e.Src+"|"+p] = true
+					}
+				}
 			}
-		}
-		all := true
-		for w := range want {
-			if !got[w] {
-				all = false
+			all := true
+			for w := range want {
+				if !got[w] {
+					all = false
+				}
 			}
+			if (all && time.Since(t1) > 5500*time.Millisecond) || time.Since(t1) > 16*time.Second {
+				break
+			}
+			time.Sleep(100 * time.Millisecond)
 		}
-		if (all && time.Since(t0) > 5500*time.Millisecond) || time.Since(t0) > 16*time.Second {
-			break
-		}
-		time.Sleep(100 * time.Millisecond)
+		time.Sleep(700 * time.Millisecond) // duplicates of the same tick arrive together; a little slack
 	}
-	time.Sleep(700 * time.Millisecond) // duplicates of the same tick arrive together; a little slack
-	return scnObs{Events: collect(), WaitMs: time.Since(t0).Milliseconds()}
+	burst(sc.Probes, 0, 0)
+	ob := scnObs{Events: collect()}
+	if len(sc.Again) > 0 {
+		n1 := len(ob.Events)
+		burst(sc.Again, len(sc.Probes), n1)
+		if evs := collect(); len(evs) > n1 {
+			ob.Events2 = evs[n1:]
+		}
+	}
+	ob.WaitMs = time.Since(t0).Milliseconds()
+	return ob
 }
 
 func (prop) Child(b core.Batch, o *core.Obs) {
@@ -443,69 +501,75 @@ func (prop) Judge(b core.Batch, recs []core.Rec, exits []core.Exit) []core.Resul
 				res.What = what
 				res.Witness = map[string]interface{}{"scenario": sc, "events": ob.Events, "index": k}
 			}
-			for s := 0; s < sc.Sources; s++ {
-				ip := srcIP(k, s).String()
-				want := map[string]bool{}
-				protos := map[string]bool{}
-				for _, pr := range sc.Probes {
-					if pr.Src == s {
-						want[pr.pair()] = true
-						protos[pr.Proto] = true
+			evalBurst := func(probes []probe, events []evObs, tag string) {
+				for s := 0; s < sc.Sources; s++ {
+					ip := srcIP(k, s).String()
+					want := map[string]bool{}
+					protos := map[string]bool{}
+					for _, pr := range probes {
+						if pr.Src == s {
+							want[pr.pair()] = true
+							protos[pr.Proto] = true
+						}
 					}
-				}
-				if len(want) == 0 {
-					continue
-				}
-				got := map[string]int{}
-				nev := 0
-				for _, e := range ob.Events {
-					if e.Src != ip {
+					if len(want) == 0 {
 						continue
 					}
-					nev++
-					if e.Dst != "127.0.0.1" {
-						fail("wrong-destination", fmt.Sprintf("portscan event for %s names destination %s", ip, e.Dst))
+					got := map[string]int{}
+					nev := 0
+					for _, e := range events {
+						if e.Src != ip {
+							continue
+						}
+						nev++
+						if e.Dst != "127.0.0.1" {
+							fail("wrong-destination"+tag, fmt.Sprintf("portscan event for %s names destination %s", ip, e.Dst))
+						}
+						for _, pt := range e.Ports {
+							got[pt]++
+						}
 					}
-					for _, pt := range e.Ports {
-						got[pt]++
+					pk := protoKey(protos)
+					if nev == 0 {
+						fail("no-event|"+pk+tag, fmt.Sprintf("source %s probed %v and no portscan event was emitted for it within 16 s", ip, keys(want)))
+						continue
 					}
-				}
-				pk := protoKey(protos)
-				if nev == 0 {
-					fail("no-event|"+pk, fmt.Sprintf("source %s probed %v and no portscan event was emitted for it within 16 s", ip, keys(want)))
-					continue
-				}
-				var missing, foreign, twice []string
-				for w := range want {
-					if got[w] == 0 {
-						missing = append(missing, w)
+					var missing, foreign, twice []string
+					for w := range want {
+						if got[w] == 0 {
+							missing = append(missing, w)
+						}
 					}
-				}
-				for g, n := range got {
-					if !want[g] {
-						foreign = append(foreign, g)
+					for g, n := range got {
+						if !want[g] {
+							foreign = append(foreign, g)
+						}
+						if n > 1 {
+							twice = append(twice, g)
+						}
 					}
-					if n > 1 {
-						twice = append(twice, g)
+					sort.Strings(missing)
+					sort.Strings(foreign)
+					sort.Strings(twice)
+					switch {
+					case len(foreign) > 0:
+						fail("foreign-port|"+pk+tag, fmt.Sprintf("source %s: portscan events list %v which it never probed (probed %v)", ip, foreign, keys(want)))
+					case len(missing) > 0:
+						fail("missing-port|"+pk+"|"+missingProto(missing)+tag, fmt.Sprintf("source %s probed %v; the events list %v: missing %v", ip, keys(want), keysN(got), missing))
+					case len(twice) > 0:
+						fail("listed-twice|"+pk+"|"+fmt.Sprintf("%dsources", sc.Sources)+tag, fmt.Sprintf("source %s: %v listed more than once across %d event(s)", ip, twice, nev))
+					case len(protos) == 1 && nev > 1:
+						fail("reported-more-than-once|"+pk+tag, fmt.Sprintf("source %s: single-protocol burst reported in %d events", ip, nev))
+					case nev > len(protos):
+						fail("reported-more-than-once|"+pk+tag, fmt.Sprintf("source %s: %d events for %d protocol groups", ip, nev, len(protos)))
 					}
-				}
-				sort.Strings(missing)
-				sort.Strings(foreign)
-				sort.Strings(twice)
-				switch {
-				case len(foreign) > 0:
-					fail("foreign-port|"+pk, fmt.Sprintf("source %s: portscan events list %v which it never probed (probed %v)", ip, foreign, keys(want)))
-				case len(missing) > 0:
-					fail("missing-port|"+pk+"|"+missingProto(missing), fmt.Sprintf("source %s probed %v; the events list %v: missing %v", ip, keys(want), keysN(got), missing))
-				case len(twice) > 0:
-					fail("listed-twice|"+pk+"|"+fmt.Sprintf("%dsources", sc.Sources), fmt.Sprintf("source %s: %v listed more than once across %d event(s)", ip, twice, nev))
-				case len(protos) == 1 && nev > 1:
-					fail("reported-more-than-once|"+pk, fmt.Sprintf("source %s: single-protocol burst reported in %d events", ip, nev))
-				case nev > len(protos):
-					fail("reported-more-than-once|"+pk, fmt.Sprintf("source %s: %d events for %d protocol groups", ip, nev, len(protos)))
 				}
 			}
-			for _, e := range ob.Events {
+			evalBurst(sc.Probes, ob.Events, "")
+			if len(sc.Again) > 0 {
+				evalBurst(sc.Again, ob.Events2, "|second-burst-of-a-reported-source")
+			}
+			for _, e := range append(append([]evObs(nil), ob.Events...), ob.Events2...) {
 				known := false
 				for s := 0; s < sc.Sources; s++ {
 					if e.Src == srcIP(k, s).String() {
